@@ -4,6 +4,7 @@ package c11
 import (
 	"bytes"
 	"fmt"
+	"github.com/scrapli/scrapligo/driver/netconf"
 	"strings"
 	"sync"
 	"testing"
@@ -234,6 +235,34 @@ func scenario(f fam) sched.Scenario {
 						_, _ = n.SendCommand("show x")
 						_ = n.Close()
 					}
+				case "system-key":
+					// the system transport refuses a passphrase-protected key: whatever error it builds is logged by
+					// the channel ("error opening channel ...") and must not spell out the ssh arguments' passphrase
+					ko := []util.Option{options.WithTransportType("system"), options.WithSystemTransportOpenBin("/nonexistent/ssh"),
+						options.WithLogger(li), options.WithChannelLog(c), options.WithAuthUsername("admin"), options.WithTimeoutOps(30 * cm.Ms)}
+					if strings.HasSuffix(f.variant, "-two-options") {
+						ko = append(ko, options.WithAuthPrivateKey("/k", ""), options.WithAuthPassphrase(f.sec.pp))
+					} else {
+						ko = append(ko, options.WithAuthPrivateKey("/k", f.sec.pp))
+					}
+					if strings.HasPrefix(f.variant, "netconf") {
+						nd, err := netconf.NewDriver("dev", ko...)
+						if err != nil {
+							setupErr = err
+							return
+						}
+						ran = nd.Open()
+					} else {
+						g, err := generic.NewDriver("dev", ko...)
+						if err != nil {
+							setupErr = err
+							return
+						}
+						ran = g.Open()
+					}
+					if ran == nil {
+						setupErr = fmt.Errorf("system transport opened with a passphrase-protected key and a missing ssh binary")
+					}
 				case "interactive":
 					mk("", 0, false, "grants")
 					events := []*channel.SendInteractiveEvent{
@@ -340,6 +369,9 @@ default:
 						e.Violate("c11:"+kind+"-in-channel-log", "channel log contains the %s", kind)
 					}
 				}
+				if d == nil {
+					return // no device in this family
+				}
 				// the secrets did reach the device (the run is not vacuous)
 				sent := false
 				for _, l := range d.Lines {
@@ -375,6 +407,9 @@ func scenarios(tier string) []sched.Scenario {
 	for _, v := range []string{"asks-grants", "asks-refuses", "asks-eof", "asks-eio", "asks-silent"} {
 		fvs = append(fvs, fv{"onopen-escalate", v})
 	}
+	for _, v := range []string{"generic", "generic-two-options", "netconf", "netconf-two-options"} {
+		fvs = append(fvs, fv{"system-key", v})
+	}
 	fvs = append(fvs, fv{"interactive", "generic"}, fv{"interactive", "network"}, fv{"platform-onopen", "redacted-write"})
 	for _, x := range fvs {
 		for _, lvl := range []string{"debug", "info", "critical"} {
@@ -396,7 +431,7 @@ func TestCheck(t *testing.T) {
 	sched.Main(t, sched.Check{
 		ID:          "C11",
 		Level:       "exploration",
-		Rule:        "invariant monitor over every execution of: telnet and ssh in-channel login {accepted, one rejection, three rejections, device silent at the password prompt, write error on the credential write}, privilege escalation, called directly and from the driver's on-open function {asks then grants, grants, refuses, asks then refuses, asks then the stream ends / fails / falls silent right after the secret arrived}, interactive send with a hidden secret (generic and network), platform on-open with a redacted write; x log level {debug, info, critical} x secret shape {plain, format verbs, regex metacharacters} x read preset {whole, 1 byte} (+ every single extra cut/hold at debug level); a capturing logger and a channel-log writer are attached; distinct = distinct (family, variant, level, secret, schedule)",
+		Rule:        "invariant monitor over every execution of: telnet and ssh in-channel login {accepted, one rejection, three rejections, device silent at the password prompt, write error on the credential write}, privilege escalation, called directly and from the driver's on-open function {asks then grants, grants, refuses, asks then refuses, asks then the stream ends / fails / falls silent right after the secret arrived}, interactive send with a hidden secret (generic and network), platform on-open with a redacted write, system transport refusing a passphrase-protected key (generic and NETCONF); x log level {debug, info, critical} x secret shape {plain, format verbs, regex metacharacters} x read preset {whole, 1 byte} (+ every single extra cut/hold at debug level); a capturing logger and a channel-log writer are attached; distinct = distinct (family, variant, level, secret, schedule)",
 		Assumptions: []string{"the device never echoes a secret (precondition of the property)", "non-vacuity is checked: the secret reached the device, the debug log carries 'redacted' and ordinary writes"},
 		Scenarios:   scenarios,
 		Budget:      map[string]time.Duration{"quick": 4 * time.Minute, "thorough": 20 * time.Minute},
